@@ -122,7 +122,7 @@ def unify_shared(node, first):
         lab = node.get("share")
         if lab is None:
             return node
-        lab = lab + ":" + ("T" if node["leaf"] in ("ramp", "pw", "sin") else ("W" if node["leaf"] == "wave" else "V"))
+        lab = lab + ":" + ("T" if node["leaf"] in ("ramp", "pw", "sin", "cos") else ("W" if node["leaf"] == "wave" else "V"))
         node = dict(node, share=lab)
         return copy.deepcopy(first.setdefault(lab, node))
     return {"op": node["op"], "l": unify_shared(node["l"], first), "r": unify_shared(node["r"], first)}
@@ -130,6 +130,14 @@ def unify_shared(node, first):
 
 def depth_of(node):
     return 0 if "leaf" in node else 1 + max(depth_of(node["l"]), depth_of(node["r"]))
+
+
+def walk_spec(node, out):
+    out.append(node)
+    if "leaf" not in node:
+        walk_spec(node["l"], out)
+        walk_spec(node["r"], out)
+    return out
 
 
 def gen(seed, idx, tier):
@@ -150,6 +158,23 @@ def gen(seed, idx, tier):
     share = "s" if rnd.random() < 0.5 else None
     depth = rnd.choice([1, 1, 2, 2, 3])
     tree = unify_shared(gen_V(rnd, T, depth, B0, share), {})
+    # sibling leaves: two DIFFERENT time-dependent functions with exactly the same keyword arguments in one
+    # expression (cos and sin of the same drive: a rotating field) - whatever identifies a leaf's values by
+    # its arguments alone confuses them (drawn from a stream of its own)
+    r2 = substream(seed, idx, "c16-sibling-leaves")
+    tl = [n for n in walk_spec(tree, []) if n.get("leaf") in ("ramp", "pw", "sin") and "share" not in n]
+    kw = {"omega": scen.r3(r2.choice([1.0, 5.0]) / T), "phase": r2.choice([0.0, 0.7]), "offset": 2.0}
+    if len(tl) >= 2 and r2.random() < 0.6:
+        for n_, leaf_ in zip(tl[:2], ("sin", "cos") if r2.random() < 0.5 else ("cos", "sin")):
+            n_.clear()
+            n_.update(dict(kw, leaf=leaf_))
+    elif len(tl) == 1 and r2.random() < 0.4:
+        n_ = tl[0]
+        n_.clear()
+        n_.update({"op": r2.choice(["+", "*"]), "l": dict(kw, leaf="sin"), "r": dict(kw, leaf="cos")})
+        if depth_of(tree) > 3:
+            n_.clear()
+            n_.update(dict(kw, leaf="cos"))
     scn["drive"]["field"] = {"kind": "tree", "tree": tree}
     scn["observer"] = {"output": {"path": "out.h5", "absolute": True}} if rnd.random() < 0.5 else {"output": None}
     scn["meta"]["depth"] = depth_of(tree)
